@@ -13,6 +13,7 @@ REPLAY_DIR = os.path.join(EVIDENCE_DIR, "replays")
 KNOWN = os.path.join(VERIF, "known_findings.json")
 
 REG = {}
+LEVELS = {"C16": "other"}
 
 
 class Harness:
@@ -141,6 +142,8 @@ def run_check(prop, tier, seed, procs=None):
     jobs = []
     for h in hs:
         for params in h.jobs(tier, seed):
+            if "_props" in params and prop not in params["_props"]:
+                continue          # a job that only belongs to some of the harness's properties
             jobs.append((h.hid, params))
     jobs.sort(key=lambda j: -j[1].get("_cost", 1))
     procs = procs or int(os.environ.get("VERIF_PROCS", "16"))
@@ -243,10 +246,13 @@ def report(prop, tier, seed, hs, results, wall):
     status = 1 if n_viol else (2 if problems else 0)
     solver_h = [h for h in hs if not h.sentinel]
     ev = dict(
-        property_id=prop, tier=tier, seed=seed, level="model_checking",
+        property_id=prop, tier=tier, seed=seed, level=LEVELS.get(prop, "model_checking"),
         coverage=dict(
             evaluations=tot["paths"],
             distinct_nontrivial=tot["completed"],
+            explanation=("bounded symbolic execution of the real functions of /repo on proxy values; each harness explores its whole "
+                         "decision tree and every assertion is a z3 query; counterexamples are replayed natively before being reported; "
+                         "per-harness bounds, stubs and counts below"),
             rule=("one evaluation = one path of the decision tree of a harness (real functions of /repo executed on "
                   "symbolic values; every path has a distinct decision trace). Non-trivial = the path was feasible, "
                   "ran the code under test to completion and reached at least one solver obligation; aborted "
